@@ -329,6 +329,7 @@ func registerTime(e *Engine) {
 		ex.timers = append(ex.timers, ch)
 		return nil
 	}
+	x["zzsym.SetIdleDelay"] = externNoop
 	x["zzsym.FreezeTimers"] = func(ex *Exec, c *frame, f *ssa.Function, a []Value) Value {
 		ex.side["freezeTimers"] = true
 		return nil
